@@ -311,8 +311,17 @@ case('benign-reorder-clock', TREE_PROPS, [],
      (RRT, "        let mut rng = self\n            .rng\n            .take()\n            .unwrap_or_else(|| Box::new(StdRng::from_os_rng()));\n        let start_time = Instant::now();", "        let start_time = Instant::now();\n        let mut rng = self\n            .rng\n            .take()\n            .unwrap_or_else(|| Box::new(StdRng::from_os_rng()));"))
 case('benign-gate-on-root', TREE_PROPS, [],
      (RRT, "        if !vc.is_valid(&pd.start_states[0]) {", "        if !vc.is_valid(&self.tree[0].state) {"))
-case('benign-prm-le-radius', ['C01', 'C03', 'C05', 'C18', 'C08', 'C06'], [],
+# (until round 18 this edit was carried as benign; C18 says two milestones are linked only if *closer than* the radius - DESIGN 10.30)
+case('c18-prm-le-radius', ['C18'], ['C18.guards'],
      (PRM, "                    if dist < self.connection_radius && self.check_motion(&q_rand, &other_state) {", "                    if dist <= self.connection_radius && self.check_motion(&q_rand, &other_state) {"))
+case('benign-prm-le-radius-other-checks', ['C01', 'C03', 'C05', 'C08', 'C06'], [],
+     (PRM, "                    if dist < self.connection_radius && self.check_motion(&q_rand, &other_state) {", "                    if dist <= self.connection_radius && self.check_motion(&q_rand, &other_state) {"))
+case('c18-prm-skip-form-not-strict', ['C18'], ['C18.guards'],
+     (PRM, "                    if dist < self.connection_radius && self.check_motion(&q_rand, &other_state) {", "                    if dist > self.connection_radius {\n                        continue;\n                    }\n                    if self.check_motion(&q_rand, &other_state) {"))
+case('benign-prm-skip-form-strict', ['C01', 'C03', 'C05', 'C18', 'C08', 'C06'], [],
+     (PRM, "                    if dist < self.connection_radius && self.check_motion(&q_rand, &other_state) {", "                    if dist >= self.connection_radius {\n                        continue;\n                    }\n                    if self.check_motion(&q_rand, &other_state) {"))
+case('benign-prm-start-connection-le-radius', ['C05', 'C18'], [],
+     (PRM, "            if pd.space.distance(start_state, &self.roadmap[i].state) < self.connection_radius", "            if pd.space.distance(start_state, &self.roadmap[i].state) <= self.connection_radius"))
 case('benign-prm-iter-start-connections', ['C01', 'C02', 'C03', 'C05', 'C18', 'C08', 'C06'], [],
      (PRM, "        for idx in &start_connections {\n            queue.push_back(*idx);\n            parent_map.insert(*idx, None);\n            visited[*idx] = true;\n        }", "        for &root in start_connections.iter() {\n            queue.push_back(root);\n            parent_map.insert(root, None);\n            visited[root] = true;\n        }"))
 case('benign-so3-sampler-satisfies', ['C11', 'C06', 'C08'], [],
@@ -846,3 +855,13 @@ case('c10-so3-distance-clamp-removed', ['C10'], ['C10.domain'],
      ('oxmpl/src/base/spaces/so3_state_space.rs', "        let clamped_dot = abs_dot.min(1.0);", "        let clamped_dot = abs_dot;"))
 case('c10-so3-slerp-branch-test-widened', ['C10'], ['C10.domain'],
      ('oxmpl/src/base/spaces/so3_state_space.rs', "        if dot > DOT_THRESHOLD {", "        if dot > DOT_THRESHOLD * 2.0 {"))
+
+# round 18 of seeded changes (base 9308c57)
+seeded('seeded-RIC03-so2-distance-folded-once', ['C03', 'C09'], ['C09.range'])
+seeded('seeded-RIC07-rrt-goal-generator-seed-overflow', ['C07'], ['C07.seed'])
+seeded('seeded-RIC11-so2-wrap-by-floor-product', ['C11', 'C12', 'C10'], ['C11.canon', 'C12.range'])
+seeded('seeded-RIC13-compound-sampler-drops-failed-component', ['C13', 'C14'], ['C13.match', 'C14.compose'])
+seeded('seeded-RIC15-rrt-every-start-becomes-a-root', ['C15', 'C01', 'C02'], ['C01.gate', 'C02.reroot'])
+seeded('seeded-RIC16-rrtconnect-step-floored-at-resolution', ['C16', 'C05'], ['C05.steer'])
+seeded('seeded-RIC17-rrtstar-rewire-skips-former-leaders', ['C17'], ['C17.rewire'])
+seeded('seeded-RIC18-prm-links-at-exactly-the-radius', ['C18'], ['C18.guards'])
